@@ -194,7 +194,7 @@ impl Language for Go {
         writeln!(
             w,
             "type {} {}\n",
-            self.acronyms_to_uppercase(&ty.id.original),
+            self.acronyms_to_uppercase(&ty.id.renamed),
             self.format_type(&ty.r#type, &[])
                 .map_err(|e| std::io::Error::new(std::io::ErrorKind::Other, e))?
         )?;
@@ -266,7 +266,7 @@ impl Go {
         let make_anonymous_struct_name = |variant_name: &str| {
             convert_acronyms_to_uppercase(
                 uppercase_acronyms.clone(),
-                &format!("{}{}Inner", &e.shared().id.original, variant_name),
+                &format!("{}{}Inner", &e.shared().id.renamed, variant_name),
             )
         };
 
@@ -309,7 +309,7 @@ impl Go {
                 shared,
                 ..
             } => {
-                let struct_name = self.acronyms_to_uppercase(&shared.id.original);
+                let struct_name = self.acronyms_to_uppercase(&shared.id.renamed);
                 let content_field = content_key.to_string().to_camel_case();
                 let tag_field = self.format_field_name(tag_key.to_string(), true);
                 let struct_short_name = shared
